@@ -41,7 +41,19 @@ func str(s string) node { return node{"k": "str", "s": bs(s)} }
 func vr(n string) node  { return node{"k": "var", "name": n} }
 func none() node        { return node{"k": "none"} }
 
-var strMenu = []string{"a", "b", "10", "3c", "", "ab", " 7", "-2", "c,d"}
+var strMenu = []string{"a", "b", "10", "3c", "", "ab", " 7", "-2", "c,d", "abba", "b&b"}
+
+func rlit(c byte) node { return node{"k": "lit", "c": int(c)} }
+
+// regex menu (trees of spec/Regex.tla; no character classes, whose sets would need conversion in TLC)
+var reMenu = []node{
+	rlit('a'),
+	{"k": "plus", "r": rlit('b')},
+	{"k": "alt", "l": rlit('a'), "r": node{"k": "cat", "l": rlit('a'), "r": rlit('b')}},
+	{"k": "cat", "l": rlit('b'), "r": node{"k": "opt", "r": rlit('a')}},
+	{"k": "cat", "l": node{"k": "bol"}, "r": rlit('a')},
+	{"k": "cat", "l": rlit('1'), "r": node{"k": "star", "r": rlit('0')}},
+}
 var scalars = []string{"x", "y", "z"}
 var arrays = []string{"a", "b"}
 
@@ -114,8 +126,20 @@ func (g *gen) expr(d int) node {
 		return node{"k": "in", "e": g.expr(d - 1), "arr": g.arrayName()}
 	case k < 88:
 		return node{"k": "idx", "arr": g.arrayName(), "e": g.expr(d - 1)}
-	case k < 91:
+	case k < 89:
 		return node{"k": "group", "e": g.expr(d - 1)}
+	case k < 90:
+		return node{"k": "match", "neg": g.r.Intn(3) == 0, "e": g.expr(d - 1), "re": reMenu[g.r.Intn(len(reMenu))]}
+	case k < 91:
+		switch g.r.Intn(3) {
+		case 0:
+			return node{"k": "re0", "re": reMenu[g.r.Intn(len(reMenu))]}
+		case 1:
+			return node{"k": "subst", "global": g.r.Intn(2) == 0, "re": reMenu[g.r.Intn(4)],
+				"repl": str([]string{"x", "[&]", "", "\\&"}[g.r.Intn(4)]), "lv": g.lvalue(1)}
+		default:
+			return node{"k": "bi", "f": "sprintf", "args": []any{str([]string{"%d-%s", "%3d|%-3s|", "%s%%%d"}[g.r.Intn(3)]), g.expr(d - 1), g.expr(d - 1)}}
+		}
 	case k < 94:
 		switch g.r.Intn(3) {
 		case 0:
@@ -173,8 +197,10 @@ func (g *gen) stmt(d int) node {
 		default:
 			return node{"k": "expr", "e": node{"k": "incr", "op": []string{"++", "--"}[g.r.Intn(2)], "pre": g.r.Intn(2) == 0, "lv": g.lvalue(2)}}
 		}
-	case k < 46:
+	case k < 44:
 		return node{"k": "expr", "e": g.expr(2)}
+	case k < 46:
+		return node{"k": "printf", "args": []any{str([]string{"%d:%s\n", "[%4d][%-4s]\n", "%s%s\n"}[g.r.Intn(3)]), g.expr(2), g.expr(2)}}
 	case k < 50:
 		if g.r.Intn(2) == 0 {
 			return node{"k": "delete", "arr": g.arrayName(), "e": g.expr(1)}
